@@ -165,7 +165,18 @@ def act(name, wd):
         fb2 = sv.PolyphaseFilterbank(num_taps=2, num_branches=8)
         st2 = np.array(fb2.estimate_channelized_stds(factor=100, seed=21 if name == 'E1' else 22))
         info['same_seed_same_estimate'] = bool(np.array_equal(st, st2))
-        return _h(st), info
+        # the seed given as ONE Generator object shared by the filterbanks of two polarisations: the second estimate is what
+        # a generator in the state the first call left behind yields (decided with a twin generator set to that state)
+        import copy as _copy
+        gen = np.random.default_rng(31 if name == 'E1' else 32)
+        ga = np.array(sv.PolyphaseFilterbank(num_taps=2, num_branches=8).estimate_channelized_stds(factor=100, seed=gen))
+        state = _copy.deepcopy(gen.bit_generator.state)
+        gb = np.array(sv.PolyphaseFilterbank(num_taps=2, num_branches=8).estimate_channelized_stds(factor=100, seed=gen))
+        twin = np.random.default_rng(0)
+        twin.bit_generator.state = state
+        gb2 = np.array(sv.PolyphaseFilterbank(num_taps=2, num_branches=8).estimate_channelized_stds(factor=100, seed=twin))
+        info['generator_seed'] = [bool(np.array_equal(gb, gb2)), bool(not np.array_equal(ga, gb))]
+        return _h(st, ga, gb), info
     if name == 'S1':
         s = sv.DataStream(sample_rate=1e3, fch1=0.0, ascending=True, t_start=1.5, seed=9)
         s.add_noise(0.1, 1.0)
@@ -302,6 +313,13 @@ def case_history(c):
         viol.append({'site': 'action:R7', 'failure': 'second_recording_differs_from_fresh_backend',
                      'detail': 'the second recording of a backend differs from that of a fresh identically configured backend whose antenna '
                                'is in the identical state; (stats_calc_period, equal): %s' % last['info'].get('second_equals_fresh_backend')})
+    if a in ('E1', 'E2') and not last['info'].get('same_seed_same_estimate', True):
+        viol.append({'site': 'action:' + a, 'failure': 'same_seed_different_estimate',
+                     'detail': 'two identically configured filterbanks given the same integer seed return different estimates'})
+    if a in ('E1', 'E2') and not all(last['info'].get('generator_seed', [True])):
+        viol.append({'site': 'action:' + a, 'failure': 'generator_seed_not_consumed',
+                     'detail': 'estimate_channelized_stds(seed=<Generator>) called twice with one Generator object: (second estimate equals '
+                               'that of a twin generator in the same state, second differs from first) = %s' % last['info'].get('generator_seed')})
     if a == 'R6' and (last['info'].get('pktidx0') != 0 or last['info'].get('pktstart') != 0):
         viol.append({'site': 'action:R6', 'failure': 'second_recording_header',
                      'detail': 'second recording from the same backend with the default header starts at PKTIDX=%r PKTSTART=%r'
